@@ -367,7 +367,7 @@ Definition site_seen (o : owner) (n : str) (seen : list (owner * str)) : bool :=
 
 (** The origin of a referenced type: the nearest identifier on its alias chain (itself first) that is the
     created identifier of an ORIGINAL site; a site is original when the type it references has no origin
-    among the sites before it.  Sites are taken in traversal order; a site met again (the same instance
+    among the sites before it; the created identifier of a non-original site has the origin of the type it references.  Sites are taken in traversal order; a site met again (the same instance
     type reached twice) counts once.  The result lists, per owner, the expected [uses] entries in order. *)
 Fixpoint expected_uses (fuel : nat) (g : vgraph) (sites : list (owner * str * vid * vid))
          (seen : list (owner * str)) (origins : list (vid * (owner * str)))
@@ -381,7 +381,8 @@ Fixpoint expected_uses (fuel : nat) (g : vgraph) (sites : list (owner * str * vi
       | None => None
       | Some None => expected_uses fuel g rest ((o, n) :: seen) ((cr, (o, n)) :: origins)
       | Some (Some (other, orig)) =>
-        match expected_uses fuel g rest ((o, n) :: seen) origins with
+        match expected_uses fuel g rest ((o, n) :: seen)
+                (match nassoc cr origins with Some _ => origins | None => (cr, (other, orig)) :: origins end) with
         | None => None
         | Some l =>
           match other with
